@@ -67,6 +67,8 @@ pub struct Codec {
     pub needs_kernel: bool,
     /// part of the C12 workloads (false = C13-only entry point)
     pub in_c12: bool,
+    /// part of the C13 workloads (the serde DTO decoders all share one code path; two representatives run)
+    pub in_c13: bool,
 }
 
 /// First identifier of a `Debug` rendering: `Foo { .. }` / `Foo(..)` → `Foo`.
